@@ -162,6 +162,17 @@ CHECKS = {
              "scipy's multivariate_normal.rvs supplies Z; np.linspace's float front end and np.round (n_affected) are oracles recomputed with the library's expressions and checked "
              "against positions_ok. Calls without any anomaly are outside the domain (p is derived from the first mean).",
         ref="DESIGN.md section 4 / C18"),
+    "C11": dict(
+        technique="Coq (container-blind model, theorems immediate by construction) + exhaustive categorical correspondence against the reference representation",
+        text="Model/Containers.v normalises every input (container kind, dtype, index kind, column labels, values) to its values before any algorithm runs; the theorems of "
+             "coq/Properties/C11.v (same values => same result; dense output carries the input's own index; an ndarray gets the default range index) hold by construction -- "
+             "deliberately, so that ANY dependence of the real code on the representation is a correspondence failure. Tie (this is where the assurance comes from): all seven "
+             "detectors x {predict, transform, transform_scores, update} and eight scorers x evaluate are run on every combination of {DataFrame, 2-D ndarray, Series, 1-D ndarray} x "
+             "{float64, int64} x {RangeIndex, offset RangeIndex, DatetimeIndex, PeriodIndex} x {default, string, 'labels'} column labels of the same integer-valued data; every result "
+             "must equal the reference representation's, bit for bit for scores, and dense outputs must carry the input's index.",
+        note=BASE_TB + "Partial by nature: pandas / sktime input checking is not modelled; the theorem is thin and the exhaustive categorical run carries the weight. The reference "
+             "representation's behaviour is tied to the algorithm models by C02-C09. No axioms.",
+        ref="DESIGN.md section 4 / C11"),
     "C12": dict(
         technique="Coq proof (kernel symmetries over Reals on regenerated kernels; exact extensionality / permutation / reversal theorems for every detector model) + metamorphic correspondence runs",
         text="Theorems in coq/Properties/C12.v. Kernels regenerated from /repo: shift invariance of the optimal-parameter squared-error and Gaussian costs and of CUSUM; Gaussian cost "
